@@ -102,4 +102,4 @@ def monitor_index(data: dict[str, int]) -> str:
 
 
 def missing_index(data: dict[str, int]) -> str:
-    return method_index(data, "monitor")
+    return method_index(data, "missing")
